@@ -277,6 +277,46 @@ func jobC16(c *rt.Ctx) {
 			c.Violation("C16 fixed-base raw", fmt.Sprintf("[s]B wrong for clamped s = %x", cl), map[string]interface{}{"scalar": ref.Hex(cl), "expected": ref.Hex(want), "observed": ref.Hex(out[:])})
 		}
 	}
+	// ---- stack position: the fixed-base multiplication started at EVERY stack depth (8-byte steps up to
+	// 72 KB, i.e. across the 2, 4, ..., 64 KB relocations of a goroutine stack) on fresh goroutines. The
+	// table selector works on a buffer in its caller's frame; whichever function entry finds the stack
+	// exhausted, the result is [s]B.
+	c.Require("fixed/stack-sweep")
+	// (the relocation happens at the FIRST entry of the deepest function: the scalars make that first
+	// table lookup - digit 1 of the radix-16 recoding - select entry +1, -1, +8 and an arbitrary one)
+	for si, sb := range [][]byte{ref.ToLE(badd(pow2(252), 0x1110), 32), ref.ToLE(badd(pow2(251), 0x21f0), 32), ref.ToLE(badd(pow2(252), 0x1180), 32), ref.ToLE(a0, 32)} {
+		if !c.Take() {
+			continue
+		}
+		c.Class("fixed/stack-sweep")
+		c.Distinct(fmt.Sprintf("stack %d", si), true)
+		var sc modm.Bignum256
+		modm.Expand(&sc, sb)
+		want := ref.BaseMul(new(big.Int).Mod(ref.LE(sb), ref.L)).Encode()
+		badDepth, run := -1, 0
+		var got [32]byte
+		maxB := 72 << 10
+		if si >= 2 && !c.Thorough() {
+			maxB = 20 << 10
+		}
+		n := rt.StackSweep(maxB, func() {
+			var r Ge25519
+			var out [32]byte
+			ScalarmultBaseNiels(&r, &NielsBaseMultiples, &sc)
+			Pack(out[:], &r)
+			if badDepth < 0 && !bytes.Equal(out[:], want) {
+				badDepth, got = run, out
+			}
+			run++
+		}, func() bool { return badDepth >= 0 })
+		c.Step(n)
+		fa, fb := rt.FrameSizes()
+		c.ExtraMax("stack_sweep_depths", int64(n))
+		if badDepth >= 0 {
+			c.Violation("C16 fixed-base stack-sweep", fmt.Sprintf("[s]B wrong for s = %x when the multiplication starts at stack depth #%d of the sweep (frames of %d and %d bytes): %x, expected %x", sb, badDepth, fa, fb, got, want),
+				map[string]interface{}{"scalar": ref.Hex(sb), "depth_index": badDepth, "expected": ref.Hex(want), "observed": ref.Hex(got[:])})
+		}
+	}
 	// ---- double base -------------------------------------------------------------------------------------
 	wAlpha := func(maxd int64, thorough bool) []*big.Int {
 		var out []*big.Int
